@@ -21,7 +21,7 @@ CLAIMS = {
             "combination (null = identity) for every truth assignment the symbolic thresholds/leaves can realise; one inductive step "
             "(operands' identity graph and results unchanged by construction, on every path) covers operand reuse in any sequence",
             "3 C02"),
-    "C03": ("for each path skeleton (primitive/map/list/map-or-list parts with condition trees) over heterogeneous 3-level documents, "
+    "C03": ("for each path skeleton (primitive/map/list/map-or-list parts with condition trees) over heterogeneous 3-level documents (paths of 4-7 parts over a six-level document with five-item lists), "
             "the selected nodes (by identity) and concrete paths equal the part-by-part reference walk for every value of the symbolic "
             "leaves, primitive parts and thresholds; entry points agree", "3 C03"),
     "C04": ("for every (value, path) returned, indexing the original document along the path reaches that very object, paths are "
